@@ -484,6 +484,31 @@ func genC20(c *ctx) {
 				}
 			}
 		}
+		// the refresh before every request: the client is handed its own previous result, again and again: nothing is left to
+		// fetch, nobody is contacted, and the header comes back as it is (tokens, order, scheme prefix)
+		if oracle == "" && ferr == nil {
+			w.mu.Lock()
+			before := len(w.reqs)
+			w.mu.Unlock()
+			cur := out
+			for pass := 2; pass <= 4 && oracle == ""; pass++ {
+				ctx3, cancel3 := context.WithTimeout(context.Background(), 5*time.Second)
+				nxt, nerr := client.FetchDischargeTokens(ctx3, cur)
+				cancel3()
+				w.mu.Lock()
+				after := len(w.reqs)
+				w.mu.Unlock()
+				switch {
+				case nerr != nil:
+					oracle = fmt.Sprintf("pass %d over the client's own result fails: %v", pass, nerr)
+				case nxt != cur:
+					oracle = fmt.Sprintf("pass %d over the client's own complete result changes the header: %.60q -> %.60q", pass, cur, nxt)
+				case after != before:
+					oracle = fmt.Sprintf("pass %d over a complete header contacted a third party (%d further requests)", pass, after-before)
+				}
+				cur = nxt
+			}
+		}
 		ndis := len(outToks) - len(hdrToks)
 		if ndis < 0 {
 			ndis = 0
